@@ -1025,4 +1025,28 @@ def nestAux : Nat → List Tok → List Tok → List Tok × List Tok
 
 def nest (ts : List Tok) : List Tok := (nestAux (ts.length + 1) ts []).1
 
+/-! ## what the declaration writer must guarantee -/
+
+/-- two lexemes may be written back to back: one side is a `,`, a `/` or a `)` — always tokens of their own
+    (CSS Syntax 3 §4.3.1) — and no `/*` arises -/
+def safeBoundary (l r : List Char) : Bool :=
+  (l.getLast? == some ',' || l.getLast? == some ')' || l.getLast? == some '/' ||
+   r.head? == some ',' || r.head? == some '/') &&
+  !(l.getLast? == some '/' && r.head? == some '*')
+
+/-- `out` is the lexemes `ps` in order, each pair separated by one space or — at a safe boundary — by nothing -/
+inductive Joined : List (List Char) → List Char → Prop
+  | nil : Joined [] []
+  | single (p : List Char) : Joined [p] p
+  | space (p q : List Char) (rest : List (List Char)) (out : List Char) :
+      Joined (q :: rest) out → Joined (p :: q :: rest) (p ++ ' ' :: out)
+  | tight (p q : List Char) (rest : List (List Char)) (out : List Char) :
+      safeBoundary p q = true → Joined (q :: rest) out → Joined (p :: q :: rest) (p ++ out)
+
+/-- lexer contract on the shapes the writer relies on -/
+def TokShape (t : Tok) : Prop :=
+  (t.tt = .comma → t.data = [',']) ∧ (t.tt = .delim → t.data.length = 1) ∧
+  (t.tt = .url → t.data.getLast? = some ')') ∧ t.data ≠ []
+
+
 end Verif.Spec.CssValue
